@@ -571,6 +571,12 @@ pub fn err_kind(e: &DecodeError) -> Option<SpecErr> {
         D::IncompleteControlMessageHeader => SpecErr::IncompleteControlHeader,
         D::IncompleteControlMessagePayload => SpecErr::IncompleteControlPayload,
         D::ControlMessageTypeNotFirst => SpecErr::NotFirst,
+        // a variant added to the crate after the model was written: the
+        // harness must still build against such a tree (a build failure is a
+        // harness error, not a verdict), and the oracles then judge what the
+        // decoder does with it
+        #[allow(unreachable_patterns)]
+        _ => SpecErr::Unmodelled,
     })
 }
 
